@@ -3,6 +3,11 @@ from facts import Sym, path_is, strip_generics, strip_sym, sym_arg, sym_calls, s
 from props.common import arg_syms, bool_switches, crate_stats, need, nonforeign_calls, one_method
 from props.witness import witness_rule
 
+KEEP = [  # private helpers the rules name (kept as functions); every other non-exported, non-trait function is spliced into its callers
+    "LocalRecorderGuard::new", "Metadata::borrowed", "Metadata::capacity", "Metadata::kind",
+    "Metadata::len", "Metadata::owned", "Metadata::shared", "RecorderOnceCell::new",
+    "cow::clone_shared",
+]
 TITLE = "C14 copy-on-write strings/slices own their memory correctly on every path."
 CONFIGS = ["test-profile"]
 USIZE_MAX = 18446744073709551615
